@@ -46,6 +46,7 @@ var items = []item{
 	{"codec/dagcbor/unmarshal.go", "const", "defaultAllocationBudget", "go_defaultAllocationBudget", "Z"},
 	{"codec/dagcbor/unmarshal.go", "const", "defaultMaxCollectionPrealloc", "go_defaultMaxCollectionPrealloc", "Z"},
 	{"codec/dagcbor/unmarshal.go", "const", "defaultMaxDepth", "go_defaultMaxDepth", "Z"},
+	{"codec/dagjson/unmarshal.go", "const", "defaultMaxDepth", "go_json_defaultMaxDepth", "Z"},
 	{"codec/dagcbor/marshal.go", "func", "uintLength", "go_uintLength", ""},
 	{"traversal/selector/matcher.go", "func", "sliceBounds", "go_sliceBounds", ""},
 	{"storage/sharding/sharding.go", "func", "Shard_r133", "go_Shard_r133", ""},
